@@ -44,6 +44,8 @@ const VOCAB: &[&str] = &[
     "rows:-1..1", "range:..0", "rolling:2", "expanding:true", "1", "0", "-1", "2.5", "null", "true", "\"a\"", "f\"{a}\"",
     "s\"{a}\"", "@2020-01-01", "3days", "1..2", "..", "{", "}", "(", ")", "[", "]", ",", "|", "=", "==", "!=", "->", "=>",
     "+", "-", "*", "/", "//", "%", "**", "??", "&&", "||", "!", "~=", ".", ":", "t1", "id", "a", "`x y`", "$1", "é",
+    "7 // 0", "3 % 0", "1 / 0", "0 ** -1", "9223372036854775807 + 1", "-9223372036854775808", "1e308 * 10", "0x7fffffffffffffff",
+    "1e999", "0.0 / 0", "take 0", "take -1", "take 1..0", "take 9223372036854775807", "rows:5..1", "rolling:0", "rolling:-1",
     "loop", "remove", "intersect", "from_text", "read_csv", "internal", "prql", "type", "import", "enum", "@{a=1}", "\n",
 ];
 
@@ -418,7 +420,9 @@ pub fn check(case: &Case, known: &Known) -> Outcome {
             let id = format!("C12-abort-{}", case.kind);
             let what = format!("process killed by signal {:?} (stack exhaustion / abort) on a {} input", sig, case.kind);
             let mut o = Outcome::fail(&what, json!({"kind": case.kind, "input": case.input, "dialect": DIALECTS[case.dialect % DIALECTS.len()].0}));
-            if known.is_open(&id) {
+            // the recorded source abort is the self-referential `import` (e.g. `import x` + `from x`)
+            let matches_sig = case.kind != "source" || case.input.contains("import");
+            if matches_sig && known.is_open(&id) {
                 o.verdict = Verdict::Known(id, what);
             }
             return o;
@@ -509,15 +513,35 @@ pub fn depth_child(kind: &str, depth: usize) -> i32 {
 
 fn run_ladder(ctx: &Ctx) {
     let exe = std::env::current_exe().expect("current exe");
-    let depths: Vec<usize> = if ctx.quick() {
-        vec![64, 512, 4096]
-    } else {
-        vec![64, 256, 1024, 4096, 16384, 65536]
+    // Rungs are chosen so that each finishes in seconds on the unchanged tree: nesting of
+    // tuples / arrays / case / unary minus takes exponential time in the parser (tuple x 32: 8 s,
+    // array x 32: 26 s, case x 24: 39 s; observation recorded in DESIGN.md), which a watchdog can
+    // only report as inconclusive.
+    let thorough = !ctx.quick();
+    let mut jobs: Vec<(String, usize)> = vec![];
+    let mut add = |k: &str, ds: &[usize]| {
+        for d in ds {
+            jobs.push((k.to_string(), *d));
+        }
     };
-    let jobs: Vec<(String, usize)> = LADDER_KINDS
-        .iter()
-        .flat_map(|k| depths.iter().map(move |d| (k.to_string(), *d)))
-        .collect();
+    add("parens", &[64, 512, 4096]);
+    add("not", &[64, 512, 4096]);
+    add("neg", &[16, 64]);
+    add("tuple", &[8, 16]);
+    add("array", &[8, 16]);
+    add("case", &[8, 12]);
+    add("add", &[64, 512, 1024]);
+    add("pipeline", &[64, 512, 1024]);
+    add("lets", &[64, 512, 4096]);
+    add("fstr", &[64, 512, 4096]);
+    if thorough {
+        add("parens", &[16384, 65536]);
+        add("not", &[16384]);
+        add("add", &[4096]);
+        add("pipeline", &[4096]);
+        add("lets", &[16384]);
+        add("fstr", &[16384]);
+    }
     ctx.enumerate("depth-ladder", jobs, |(kind, depth)| {
         let start = std::time::Instant::now();
         let mut child = match std::process::Command::new(&exe)
@@ -536,7 +560,7 @@ fn run_ladder(ctx: &Ctx) {
             match child.try_wait() {
                 Ok(Some(s)) => break Some(s),
                 Ok(None) => {
-                    if start.elapsed().as_secs() > 120 {
+                    if start.elapsed().as_secs() > 30 {
                         let _ = child.kill();
                         let _ = child.wait();
                         break None;
